@@ -211,11 +211,19 @@ def source_gate(files):
     return bad
 
 
-def build_target(target, timeout=3000):
-    """make one .vo (and what it depends on). Returns (ok, log)."""
+def build_target(target, timeout=3000, lockname=None):
+    """make the given .vo targets (and what they depend on). Returns (ok, log).
+    Phase 1 under the global lock: the shared files (Common/, gen/) — normally a no-op.
+    Phase 2 under a per-property lock: the targets themselves, so that a long proof of one
+    property does not block the checks of the others."""
     with Lock("coq"):
         ensure_makefile()
-        rc, out = run(["make", "-j16"] + target.split(), cwd=COQ, timeout=timeout)
+        shared = [f + "o" for f in coq_files() if f.startswith("Common/") or f.startswith("gen/")]
+        rc, out = run(["make", "-j8"] + shared, cwd=COQ, timeout=timeout)
+        if rc != 0:
+            return False, out
+    with Lock("coq-" + (lockname or re.sub(r"\W+", "_", target)[:40])):
+        rc, out = run(["make", "-j8"] + target.split(), cwd=COQ, timeout=timeout)
         return rc == 0, out
 
 
@@ -407,14 +415,14 @@ def check(prop, tier, seed, cfg, replay=None):
         if g == "core" or g in cfg.get("generators", []):
             broken.append(("translator", "generator %s: %s" % (g, out[-1500:])))
 
-    ok, out = build_target(" ".join(f + "o" for f in prop_files(prop)))
+    ok, out = build_target(" ".join(f + "o" for f in prop_files(prop)), lockname=prop)
     thms = theorems_of(prop)
     proofs_ok = ok
     if not ok:
         m = re.search(r'File "([^"]+)", line (\d+).*?\n(Error.*?)(?:\n\n|\Z)', out, flags=re.S)
         detail = ("%s line %s: %s" % (m.group(1), m.group(2), m.group(3)[:600])) if m else out[-1500:]
         broken.append(("proof", "Props/%s.vo does not build: %s" % (prop, detail)))
-    runok, out2 = build_target("Run/Run%s.vo" % prop)
+    runok, out2 = build_target("Run/Run%s.vo" % prop, lockname=prop)
     if not runok:
         broken.append(("model", "Run/Run%s.vo does not build: %s" % (prop, out2[-800:])))
 
